@@ -286,19 +286,25 @@ theorem errStep_safe {c : ErrCfg} (hs : errCfgSafe c = true) :
           rw [hw]; simp; omega
       obtain ⟨u3, hnx, hu3⟩ := hnext
       simp only [errStep, hidx, if_false, hp1, hp2, hnx]
-      cases hfin : (m.fatal || spaceHit c u3 || countHit c (s.count + 1)) with
+      cases hfat : m.fatal with
       | true => right; simp
       | false =>
-        left
-        refine ⟨⟨u3, s.count + 1⟩, by simp, ?_, hu3⟩
-        have hne : countHit c (s.count + 1) = false := by
-          cases hq : countHit c (s.count + 1) with
-          | false => rfl
-          | true => simp [hq] at hfin
-        have : s.count + 1 ≠ n := by
-          simpa [countHit, hg] using hne
-        show s.count + 1 < n
-        omega
+        cases hfin : (spaceHit c u3 || countHit c (s.count + 1)) with
+        | true =>
+          cases hfc : c.fullContinues with
+          | true => left; exact ⟨⟨0, 0⟩, by simp, by simp [ErrInv]; omega⟩
+          | false => right; simp
+        | false =>
+          left
+          refine ⟨⟨u3, s.count + 1⟩, by simp, ?_, hu3⟩
+          have hne : countHit c (s.count + 1) = false := by
+            cases hq : countHit c (s.count + 1) with
+            | false => rfl
+            | true => simp [hq] at hfin
+          have : s.count + 1 ≠ n := by
+            simpa [countHit, hg] using hne
+          show s.count + 1 < n
+          omega
 
 theorem errRun_no_overflow {c : ErrCfg} (hs : errCfgSafe c = true) (evs : List ErrEv) :
     (errRun c ⟨0, 0⟩ evs).isOverflow = false := by
@@ -1418,23 +1424,28 @@ The run of `main` is interpreted over a finite abstraction of the state (`AState
 operation, so what is decided for all 64 abstract states and all kinds of reports holds for every real run. -/
 
 structure AState where
-  nonempty : Bool   -- printed + pending ≥ 1
-  pzero : Bool      -- pending = 0
+  printedPos : Bool   -- printed ≥ 1
+  pendingPos : Bool   -- pending ≥ 1
   staged : Bool
   occurred : Bool
   errIssued : Bool
-  trailer : Bool    -- trailer ≥ 1
+  trailer : Bool      -- trailer ≥ 1
+  lost : Bool         -- lost ≥ 1
   deriving DecidableEq, Repr
 
+def AState.nonempty (a : AState) : Bool := a.printedPos || a.pendingPos
+def AState.pzero (a : AState) : Bool := !a.pendingPos
+
 def absS (s : RState) : AState :=
-  ⟨Nat.ble 1 (s.printed + s.pending), s.pending == 0, s.staged, s.occurred, s.errIssued, Nat.ble 1 s.trailer⟩
+  ⟨Nat.ble 1 s.printed, Nat.ble 1 s.pending, s.staged, s.occurred, s.errIssued, Nat.ble 1 s.trailer, Nat.ble 1 s.lost⟩
 
 def AState.step : RAct → AState → AState
-  | .print, a => { a with nonempty := true }
+  | .print, a => { a with printedPos := true }
   | .buf, a => { a with staged := true }
-  | .commit, a => if a.staged then { a with nonempty := true, pzero := false, staged := false } else a
+  | .commit, a => if a.staged then { a with pendingPos := true, staged := false } else a
   | .setOccurred, a => { a with occurred := true }
-  | .flush, a => { a with pzero := true }
+  | .flush, a => { a with printedPos := a.printedPos || a.pendingPos, pendingPos := false }
+  | .restart, a => { a with lost := a.lost || a.pendingPos, pendingPos := false, staged := false }
 
 def AState.ops : Ops AState where
   step := AState.step
@@ -1449,16 +1460,22 @@ structure Hom {σ τ : Type} (o1 : Ops σ) (o2 : Ops τ) (f : σ → τ) : Prop 
   markErr : ∀ s, f (o1.markErr s) = o2.markErr (f s)
   markTrailer : ∀ s, f (o1.markTrailer s) = o2.markTrailer (f s)
 
+theorem ble_one_add (p q : Nat) : Nat.ble 1 (p + q) = (Nat.ble 1 p || Nat.ble 1 q) := by
+  rw [Bool.eq_iff_iff]; simp [Nat.ble_eq]; omega
+
+theorem ble_one_false {n : Nat} : Nat.ble 1 n = false ↔ n = 0 := by
+  cases n <;> simp [Nat.ble]
+
 theorem absS_hom : Hom RState.ops AState.ops absS where
   step := by
     intro a s
-    obtain ⟨p, q, stg, oc, ei, tr⟩ := s
-    cases a <;> cases stg <;> simp [absS, RState.ops, AState.ops, RAct.step, AState.step] <;> (try omega)
+    obtain ⟨p, q, stg, oc, ei, tr, lo⟩ := s
+    cases a <;> cases stg <;> simp [absS, RState.ops, AState.ops, RAct.step, AState.step, ble_one_add, Nat.ble] <;> (try omega)
   occurred := by intro s; rfl
   markErr := by intro s; rfl
   markTrailer := by
     intro s
-    obtain ⟨p, q, stg, oc, ei, tr⟩ := s
+    obtain ⟨p, q, stg, oc, ei, tr, lo⟩ := s
     simp [absS, RState.ops, AState.ops]
 
 section
@@ -1482,7 +1499,7 @@ theorem reportL_hom (h : Hom o1 o2 f) (c : ExitDiscCfg) (b : Bool) (l : Lvl) (sy
     (f (reportL o1 c b l sym full s).1, (reportL o1 c b l sym full s).2) = reportL o2 c b l sym full (f s) := by
   obtain ⟨e, x, d⟩ := l
   simp only [reportL]
-  cases hx : (x || ((pickFn c b sym).alsoWhenFull && full)) <;> cases e <;> cases d <;>
+  cases hx : (x || ((pickFn c b sym).alsoWhenFull && full)) <;> cases e <;> cases d <;> cases full <;>
     simp [doFail, h.markTrailer, h.markErr, runActs_hom h]
 
 theorem runLevels_hom (h : Hom o1 o2 f) (c : ExitDiscCfg) (b : Bool) :
@@ -1535,11 +1552,12 @@ theorem allBool_spec {p : Bool → Bool} (h : allBool p = true) : ∀ b, p b = t
   intro b; cases b <;> simp_all [allBool]
 
 def allAState (p : AState → Bool) : Bool :=
-  allBool fun a => allBool fun b => allBool fun c => allBool fun d => allBool fun e => allBool fun g => p ⟨a, b, c, d, e, g⟩
+  allBool fun a => allBool fun b => allBool fun c => allBool fun d => allBool fun e => allBool fun g => allBool fun k =>
+    p ⟨a, b, c, d, e, g, k⟩
 
 theorem allAState_spec {p : AState → Bool} (h : allAState p = true) : ∀ a, p a = true := by
-  intro ⟨a, b, c, d, e, g⟩
-  exact allBool_spec (allBool_spec (allBool_spec (allBool_spec (allBool_spec (allBool_spec h a) b) c) d) e) g
+  intro ⟨a, b, c, d, e, g, k⟩
+  exact allBool_spec (allBool_spec (allBool_spec (allBool_spec (allBool_spec (allBool_spec (allBool_spec h a) b) c) d) e) g) k
 
 def allLvl (p : Lvl → Bool) : Bool := allBool fun a => allBool fun b => allBool fun c => p ⟨a, b, c⟩
 
@@ -1547,20 +1565,24 @@ theorem allLvl_spec {p : Lvl → Bool} (h : allLvl p = true) : ∀ l, p l = true
   intro ⟨a, b, c⟩
   exact allBool_spec (allBool_spec (allBool_spec h a) b) c
 
-/-- between two reports: `ERRORoccurred` only with a diagnostic issued, every error diagnostic sets it, nothing half-written
-in the buffer, and nothing in the buffer at all without -B -/
-def ainvB (buffered : Bool) (a : AState) : Bool :=
-  (!a.occurred || a.nonempty) && (!a.errIssued || a.occurred) && !a.staged && (buffered || a.pzero)
+/-- severities are tested against increasing thresholds: fatal implies error, dump implies fatal -/
+def lvlMono (l : Lvl) : Bool := (!l.exit || l.err) && (!l.dump || l.exit)
 
-/-- how a run may end: with the failure status after at least one diagnostic and the trailer, nothing left in the buffer;
-with the success status, no error diagnostic issued, nothing left in the buffer; or in abort() after the flushed diagnostic -/
+/-- between two reports: `ERRORoccurred` exactly when an error diagnostic was issued, and then something is on stderr or in
+the buffer; nothing half-written in the buffer; nothing in the buffer at all without -B; nothing was dropped -/
+def ainvB (buffered : Bool) (a : AState) : Bool :=
+  (!a.occurred || a.nonempty) && (a.errIssued == a.occurred) && !a.staged && (buffered || a.pzero) && !a.lost
+
+/-- how a run may end: with the failure status after an error diagnostic, on stderr together with the trailer, nothing left
+in the buffer and nothing dropped; with the success status, no error diagnostic issued, nothing left in the buffer, nothing
+dropped; or in abort() after the flushed diagnostic -/
 def finalOk (c : ExitDiscCfg) (r : AState × Option Stop) : Bool :=
   match r.2 with
   | none => false
-  | some .aborted => r.1.nonempty && r.1.pzero
+  | some .aborted => r.1.printedPos && r.1.pzero && !r.1.lost
   | some (.exited st) =>
-    if st == c.failStatus then r.1.nonempty && r.1.pzero && r.1.trailer
-    else st == c.succStatus && r.1.pzero && !r.1.errIssued && r.1.trailer
+    if st == c.failStatus then r.1.printedPos && r.1.pzero && r.1.trailer && !r.1.lost && r.1.errIssued
+    else st == c.succStatus && r.1.pzero && !r.1.errIssued && r.1.trailer && !r.1.lost
 
 def stopOk (c : ExitDiscCfg) (r : AState × Option Stop) : Bool :=
   match r.2 with
@@ -1569,7 +1591,8 @@ def stopOk (c : ExitDiscCfg) (r : AState × Option Stop) : Bool :=
 
 def stepOk (c : ExitDiscCfg) : Bool :=
   allBool fun b => allLvl fun l => allBool fun sym => allBool fun full => allAState fun a =>
-    !ainvB b a || (ainvB b (reportL AState.ops c b l sym full a).1 && stopOk c (reportL AState.ops c b l sym full a))
+    !lvlMono l || !ainvB b a ||
+      (ainvB b (reportL AState.ops c b l sym full a).1 && stopOk c (reportL AState.ops c b l sym full a))
 
 def finishOk (c : ExitDiscCfg) : Bool :=
   allBool fun b => allAState fun a =>
@@ -1577,29 +1600,51 @@ def finishOk (c : ExitDiscCfg) : Bool :=
 
 def discCfgOk (c : ExitDiscCfg) : Bool :=
   stepOk c && finishOk c && c.failStatus != c.succStatus && c.failHooks == 0 && c.strayWrites == 0 &&
+    decide (c.sevError ≤ c.sevExit) && decide (c.sevExit ≤ c.sevDump) &&
     c.checks.getD 0 false && c.checks.getD 1 false && c.checks.getD 2 false
 
+abbrev LevelsMono (evs : List (Lvl × Bool × Bool)) : Prop := ∀ e, e ∈ evs → lvlMono e.1 = true
+
+theorem levelsOf_mono (c : ExitDiscCfg) (h1 : c.sevError ≤ c.sevExit) (h2 : c.sevExit ≤ c.sevDump)
+    (enabled : Nat → Bool) (evs : List Ev) : LevelsMono (levelsOf c enabled evs) := by
+  intro e he
+  simp only [levelsOf, List.mem_filterMap, Option.map_eq_some_iff] at he
+  obtain ⟨ev, _, l, hl, rfl⟩ := he
+  unfold evLevel at hl
+  split at hl
+  · cases hl
+  · cases hl
+    simp only [lvlMono, Bool.and_eq_true, Bool.or_eq_true, Bool.not_eq_true', decide_eq_false_iff_not, decide_eq_true_eq]
+    constructor
+    · by_cases hx : c.sevExit ≤ c.sevs.getD ev.code 0
+      · right; omega
+      · left; exact hx
+    · by_cases hx : c.sevDump ≤ c.sevs.getD ev.code 0
+      · right; omega
+      · left; exact hx
+
 theorem runLevels_ok {c : ExitDiscCfg} (hs : stepOk c = true) (b : Bool) :
-    ∀ (evs : List (Lvl × Bool × Bool)) (a : AState), ainvB b a = true →
+    ∀ (evs : List (Lvl × Bool × Bool)) (a : AState), LevelsMono evs → ainvB b a = true →
       ainvB b (runLevels AState.ops c b evs a).1 = true ∧ stopOk c (runLevels AState.ops c b evs a) = true := by
   intro evs
   induction evs with
-  | nil => intro a ha; exact ⟨ha, rfl⟩
+  | nil => intro a _ ha; exact ⟨ha, rfl⟩
   | cons e rest ih =>
-    intro a ha
+    intro a hmono ha
     obtain ⟨l, sym, full⟩ := e
+    have hl : lvlMono l = true := hmono (l, sym, full) List.mem_cons_self
     have h1 := allAState_spec (allBool_spec (allBool_spec (allLvl_spec (allBool_spec hs b) l) sym) full) a
-    simp only [ha, Bool.not_true, Bool.false_or, Bool.and_eq_true] at h1
+    simp only [hl, ha, Bool.not_true, Bool.false_or, Bool.and_eq_true] at h1
     simp only [runLevels]
     cases hr : reportL AState.ops c b l sym full a with
     | mk a1 st =>
       rw [hr] at h1
       cases st with
       | some x => exact h1
-      | none => exact ih a1 h1.1
+      | none => exact ih a1 (fun e he => hmono e (List.mem_cons_of_mem _ he)) h1.1
 
 theorem runPhases_ok {c : ExitDiscCfg} (hs : stepOk c = true) (hf : finishOk c = true) (b : Bool) :
-    ∀ (ps : List (List (Lvl × Bool × Bool) × Bool)), (∀ p ∈ ps, p.2 = true) →
+    ∀ (ps : List (List (Lvl × Bool × Bool) × Bool)), (∀ p ∈ ps, p.2 = true ∧ LevelsMono p.1) →
       ∀ (a : AState), ainvB b a = true → a.occurred = false → finalOk c (runPhases AState.ops c b ps a) = true := by
   intro ps
   induction ps with
@@ -1611,8 +1656,9 @@ theorem runPhases_ok {c : ExitDiscCfg} (hs : stepOk c = true) (hf : finishOk c =
   | cons p rest ih =>
     intro hp a ha _
     obtain ⟨evs, chk⟩ := p
-    have hchk : chk = true := hp (evs, chk) (List.mem_cons_self)
-    have hl := runLevels_ok hs b evs a ha
+    obtain ⟨hchk, hmono⟩ := hp (evs, chk) (List.mem_cons_self)
+    have hchk : chk = true := hchk
+    have hl := runLevels_ok hs b evs a hmono ha
     simp only [runPhases]
     cases hr : runLevels AState.ops c b evs a with
     | mk a1 st =>
@@ -1633,54 +1679,61 @@ theorem runPhases_ok {c : ExitDiscCfg} (hs : stepOk c = true) (hf : finishOk c =
 theorem runMain_ok {c : ExitDiscCfg} (hc : discCfgOk c = true) (buffered : Bool) (enabled : Nat → Bool)
     (parse resolve backend : List Ev) :
     finalOk c (absS (runMain c buffered enabled parse resolve backend).1, (runMain c buffered enabled parse resolve backend).2) = true := by
-  simp only [discCfgOk, Bool.and_eq_true] at hc
-  obtain ⟨⟨⟨⟨⟨⟨⟨hs, hf⟩, _⟩, _⟩, _⟩, h0⟩, h1⟩, h2⟩ := hc
+  simp only [discCfgOk, Bool.and_eq_true, decide_eq_true_eq] at hc
+  obtain ⟨⟨⟨⟨⟨⟨⟨⟨⟨hs, hf⟩, _⟩, _⟩, _⟩, hm1⟩, hm2⟩, h0⟩, h1⟩, h2⟩ := hc
   unfold runMain
   rw [runPhases_hom absS_hom]
   apply runPhases_ok hs hf
   · intro p hp
     simp only [List.mem_cons, List.not_mem_nil, or_false] at hp
-    rcases hp with rfl | rfl | rfl <;> assumption
+    rcases hp with rfl | rfl | rfl
+    · exact ⟨h0, levelsOf_mono c hm1 hm2 enabled parse⟩
+    · exact ⟨h1, levelsOf_mono c hm1 hm2 enabled resolve⟩
+    · exact ⟨h2, levelsOf_mono c hm1 hm2 enabled backend⟩
   · cases buffered <;> rfl
   · rfl
 
 /-- **C06, exit status ⇒ diagnostic**: whatever is reported during parse, resolve and back end, with or without -B and
 under any setting of -w and -i: a run that ends with a status other than the success status ends with the failure status,
-at least one diagnostic is on stderr, followed by the "Errors in input" trailer, and nothing is left in the message
-buffer.  (Regenerated: the action sequences of the branches of ERRORreport and ERRORvreport_with_symbol, the severities
-of LibErrors, EXPRESS_fail, the three `if( ERRORoccurred )` tests of main, that no tool installs an EXPRESSfail hook
-and that `ERRORoccurred` is assigned nowhere else.) -/
+a diagnostic of severity ERROR or higher was issued (warnings alone never fail a run), at least one diagnostic is on
+stderr, followed by the "Errors in input" trailer, nothing is left in the message buffer and no message was dropped
+from it.  (Regenerated: the action sequences of the branches of ERRORreport and ERRORvreport_with_symbol — what happens
+when the -B buffer is full included —, the severities of LibErrors and their thresholds, EXPRESS_fail, the three
+`if( ERRORoccurred )` tests of main, that no tool installs an EXPRESSfail hook and that `ERRORoccurred` is assigned
+nowhere else.) -/
 theorem C06_nonzero_exit_has_diagnostic (buffered : Bool) (enabled : Nat → Bool) (parse resolve backend : List Ev)
     (s : RState) (st : Nat) (h : runMain exitDiscCfg buffered enabled parse resolve backend = (s, some (.exited st)))
     (hne : st ≠ exitDiscCfg.succStatus) :
-    st = exitDiscCfg.failStatus ∧ 1 ≤ s.printed ∧ s.pending = 0 ∧ 1 ≤ s.trailer := by
+    st = exitDiscCfg.failStatus ∧ s.errIssued = true ∧ 1 ≤ s.printed ∧ s.pending = 0 ∧ 1 ≤ s.trailer ∧ s.lost = 0 := by
   have hc : discCfgOk exitDiscCfg = true := by decide
   have hm := runMain_ok hc buffered enabled parse resolve backend
   rw [h] at hm
   simp only [finalOk] at hm
   by_cases hfs : st = exitDiscCfg.failStatus
-  · simp [hfs, absS] at hm
-    obtain ⟨⟨h1, h2⟩, h3⟩ := hm
-    exact ⟨hfs, by omega, h2, h3⟩
+  · simp [hfs, absS, AState.pzero, ble_one_false] at hm
+    obtain ⟨⟨⟨⟨h1, h2⟩, h3⟩, h4⟩, h5⟩ := hm
+    exact ⟨hfs, h5, h1, h2, h3, h4⟩
   · simp [hfs, hne] at hm
 
 /-- **C06, success status ⇒ no error and nothing lost**: a run that ends with the success status has issued no
-diagnostic of severity ERROR or higher, and no (warning) message is left unprinted in the -B buffer. -/
+diagnostic of severity ERROR or higher, no (warning) message is left unprinted in the -B buffer and none was dropped. -/
 theorem C06_zero_exit_no_error_nothing_buffered (buffered : Bool) (enabled : Nat → Bool) (parse resolve backend : List Ev)
     (s : RState) (h : runMain exitDiscCfg buffered enabled parse resolve backend = (s, some (.exited exitDiscCfg.succStatus))) :
-    s.errIssued = false ∧ s.pending = 0 := by
+    s.errIssued = false ∧ s.pending = 0 ∧ s.lost = 0 := by
   have hc : discCfgOk exitDiscCfg = true := by decide
   have hm := runMain_ok hc buffered enabled parse resolve backend
   rw [h] at hm
   have hne : (exitDiscCfg.succStatus == exitDiscCfg.failStatus) = false := by decide
-  simp [finalOk, hne, absS] at hm
-  exact ⟨hm.1.2, hm.1.1⟩
+  simp [finalOk, hne, absS, AState.pzero, ble_one_false] at hm
+  obtain ⟨⟨⟨h1, h2⟩, _⟩, h4⟩ := hm
+  exact ⟨h2, h1, h4⟩
 
 /-- **C06, abort() only after the diagnostic**: a run that ends in abort() (severity DUMP) has its diagnostic on stderr,
 the buffer flushed; and every run ends — in an exit status or in abort(). -/
 theorem C06_run_ends_and_abort_after_diagnostic (buffered : Bool) (enabled : Nat → Bool) (parse resolve backend : List Ev) :
     (∃ s stop, runMain exitDiscCfg buffered enabled parse resolve backend = (s, some stop)) ∧
-    ∀ s, runMain exitDiscCfg buffered enabled parse resolve backend = (s, some .aborted) → 1 ≤ s.printed ∧ s.pending = 0 := by
+    ∀ s, runMain exitDiscCfg buffered enabled parse resolve backend = (s, some .aborted) →
+      1 ≤ s.printed ∧ s.pending = 0 ∧ s.lost = 0 := by
   have hc : discCfgOk exitDiscCfg = true := by decide
   have hm := runMain_ok hc buffered enabled parse resolve backend
   constructor
@@ -1692,8 +1745,114 @@ theorem C06_run_ends_and_abort_after_diagnostic (buffered : Bool) (enabled : Nat
       | some x => exact ⟨s, x, rfl⟩
   · intro s h
     rw [h] at hm
-    simp [finalOk, absS] at hm
-    omega
+    simp [finalOk, absS, AState.pzero, ble_one_false] at hm
+    obtain ⟨⟨h1, h2⟩, h3⟩ := hm
+    exact ⟨h1, h2, h3⟩
+
+/-! ### the verdict does not depend on -B or on how full the message buffer is -/
+
+/-- the state reduced to `ERRORoccurred` -/
+def occOps : Ops Bool where
+  step := fun a s => match a with | .setOccurred => true | _ => s
+  occurred := fun s => s
+  markErr := fun s => s
+  markTrailer := fun s => s
+
+theorem occ_hom : Hom RState.ops occOps (fun s => s.occurred) where
+  step := by
+    intro a s
+    obtain ⟨p, q, stg, oc, ei, tr, lo⟩ := s
+    cases a <;> cases stg <;> simp [RState.ops, occOps, RAct.step]
+  occurred := by intro s; rfl
+  markErr := by intro s; rfl
+  markTrailer := by intro s; rfl
+
+def clr (e : Lvl × Bool × Bool) : Lvl × Bool × Bool := (e.1, e.2.1, false)
+
+def clearFull (evs : List Ev) : List Ev := evs.map (fun e => { e with full := false })
+
+def indepOk (c : ExitDiscCfg) : Bool :=
+  allBool fun b => allLvl fun l => allBool fun sym => allBool fun full => allBool fun a =>
+    decide (reportL occOps c b l sym full a = reportL occOps c false l sym false a)
+
+theorem runLevels_indep {c : ExitDiscCfg} (hi : indepOk c = true) (b : Bool) :
+    ∀ (evs : List (Lvl × Bool × Bool)) (a : Bool),
+      runLevels occOps c b evs a = runLevels occOps c false (evs.map clr) a := by
+  intro evs
+  induction evs with
+  | nil => intro a; rfl
+  | cons e rest ih =>
+    intro a
+    obtain ⟨l, sym, full⟩ := e
+    have h1 := allBool_spec (allBool_spec (allBool_spec (allLvl_spec (allBool_spec hi b) l) sym) full) a
+    simp only [decide_eq_true_eq] at h1
+    simp only [runLevels, List.map_cons, clr, h1]
+    cases reportL occOps c false l sym false a with
+    | mk a1 st =>
+      cases st with
+      | some x => rfl
+      | none => exact ih a1
+
+theorem runPhases_indep {c : ExitDiscCfg} (hi : indepOk c = true) (b : Bool) :
+    ∀ (ps : List (List (Lvl × Bool × Bool) × Bool)) (a : Bool),
+      runPhases occOps c b ps a = runPhases occOps c false (ps.map (fun p => (p.1.map clr, p.2))) a := by
+  intro ps
+  induction ps with
+  | nil => intro a; rfl
+  | cons p rest ih =>
+    intro a
+    obtain ⟨evs, chk⟩ := p
+    simp only [runPhases, List.map_cons, runLevels_indep hi b evs a]
+    cases runLevels occOps c false (evs.map clr) a with
+    | mk a1 st =>
+      cases st with
+      | some x => rfl
+      | none =>
+        simp only
+        cases (chk && occOps.occurred a1)
+        · exact ih a1
+        · rfl
+
+theorem levelsOf_clearFull (c : ExitDiscCfg) (enabled : Nat → Bool) (evs : List Ev) :
+    levelsOf c enabled (clearFull evs) = (levelsOf c enabled evs).map clr := by
+  induction evs with
+  | nil => rfl
+  | cons e rest ih =>
+    have he : evLevel c enabled { e with full := false } = evLevel c enabled e := rfl
+    simp only [clearFull, List.map_cons, levelsOf, List.filterMap_cons, he] at ih ⊢
+    cases evLevel c enabled e with
+    | none => simpa using ih
+    | some l => simpa [clr] using ih
+
+theorem runMain_stop_indep {c : ExitDiscCfg} (hi : indepOk c = true) (buffered : Bool) (enabled : Nat → Bool)
+    (parse resolve backend : List Ev) :
+    (runMain c buffered enabled parse resolve backend).2 =
+      (runMain c false enabled (clearFull parse) (clearFull resolve) (clearFull backend)).2 := by
+  have hL := congrArg Prod.snd (runPhases_hom occ_hom c buffered
+    [(levelsOf c enabled parse, c.checks.getD 0 false), (levelsOf c enabled resolve, c.checks.getD 1 false),
+     (levelsOf c enabled backend, c.checks.getD 2 false)] RState.init)
+  have hR := congrArg Prod.snd (runPhases_hom occ_hom c false
+    [(levelsOf c enabled (clearFull parse), c.checks.getD 0 false), (levelsOf c enabled (clearFull resolve), c.checks.getD 1 false),
+     (levelsOf c enabled (clearFull backend), c.checks.getD 2 false)] RState.init)
+  simp only at hL hR
+  unfold runMain
+  rw [hL, hR, runPhases_indep hi buffered]
+  simp [levelsOf_clearFull]
+
+/-- **C06, the verdict does not depend on -B**: for every sequence of reports and every -w and -i setting, a run with -B —
+however often the message buffer fills up on the way — ends exactly like the run without -B: the same exit status, or
+abort() at the same report. -/
+theorem C06_exit_status_independent_of_buffering (buffered : Bool) (enabled : Nat → Bool) (parse resolve backend : List Ev) :
+    (runMain exitDiscCfg buffered enabled parse resolve backend).2 =
+      (runMain exitDiscCfg false enabled (clearFull parse) (clearFull resolve) (clearFull backend)).2 :=
+  runMain_stop_indep (by decide) buffered enabled parse resolve backend
+
+/-- the tree before C06-37: with -B, a full buffer after a warning ended the run with the failure status -/
+theorem C06_full_buffer_exit_witness :
+    let c := { exitDiscCfg with symBuffered := { exitDiscCfg.symBuffered with alsoWhenFull := true, fullActs := [] }, sevs := [0, 0], subordinate := 0 }
+    (runMain c true (fun _ => true) [] [⟨1, true, true⟩] []).2 = some (.exited c.failStatus) ∧
+    (runMain c false (fun _ => true) [] [⟨1, true, false⟩] []).2 = some (.exited c.succStatus) := by
+  decide
 
 /-- **C06, the other exits**: every other `exit( )` in the sources of the four tools with a status that is not literally
 0 comes after output to stderr in the same function (or in a function it calls), `main` tests the usage function pointer
